@@ -2026,11 +2026,7 @@ func (c *Ctx) payloadOnEveryPath(fn *ssa.Function) []core.Ob {
 					}
 				}
 			}
-			if selfLen {
-				o.Got = "the length written is len() of the payload"
-				obs = append(obs, o)
-				continue
-			}
+			_ = selfLen // (a length taken from the payload keeps the document well-formed, but the value is still dropped)
 			seen := map[ssa.Value]bool{}
 			var nilEdge func(v ssa.Value) bool
 			nilEdge = func(v ssa.Value) bool {
@@ -2051,7 +2047,7 @@ func (c *Ctx) payloadOnEveryPath(fn *ssa.Function) []core.Ob {
 				return false
 			}
 			if nilEdge(phi) {
-				o.Status, o.Got = core.Violated, "on some path the payload is still the nil slice when it is written: a length of n is followed by no bytes (an element kind none of the arms handles)"
+				o.Status, o.Got = core.Violated, "on some path the payload is still the nil slice when it is written: the value is dropped (a length of n followed by no bytes, or an empty string for a value that has one)"
 			}
 			obs = append(obs, o)
 		}
